@@ -158,12 +158,21 @@ def compute_crop_calendar(
 
             # Convert CGC to gdd mode
             # crop.CGC_CD = crop.CGC
+            # (a planting date in a period too cold for the crop leaves no
+            # degree days between emergence and maximum canopy cover)
+            tCGC = crop.MaxCanopy - crop.Emergence
+            if tCGC <= 0:
+                raise ValueError(
+                    "Not enough growing degree days between emergence and maximum canopy cover "
+                    + "to convert the crop calendar to thermal time (planting date "
+                    + str(crop.planting_date) + ")."
+                )
             crop.CGC = (
                 np.log(
                     (((0.98 * crop.CCx) - crop.CCx) * crop.CC0)
                     / (-0.25 * (crop.CCx**2))
                 )
-            ) / (-(crop.MaxCanopy - crop.Emergence))
+            ) / (-tCGC)
 
             # Convert CDC to gdd mode
             # crop.CDC_CD = crop.CDC
